@@ -33,7 +33,7 @@
        the last chunk was closed and followed by no message are dropped from the data section (they still
        appear in the summary section and are counted by the statistics record); "exactly those registered
        before the last message are written" is false in the other direction (pyex_late_schema_written). *)
-From Mcap Require ConstsTie LayoutTie. (* regenerated ties to /repo's source that this property's model relies on *)
+From Mcap Require ConstsTie LayoutTie PyDecisionTie. (* regenerated ties to /repo's source that this property's model relies on *)
 From Coq Require Import List NArith ZArith Bool.
 From Coq.Strings Require Import Byte.
 From Mcap Require Import Bytes GoSem Crc32 Records RecordsFacts Writer Lexer LexSpec LexerFactsB ComposeFacts Py
